@@ -51,6 +51,9 @@ type Script struct {
 	// reaches): "bom" EF BB BF, "bom16" FF FE, "crlf" CR LF, "lf", "blank", "nul", "gzip" 1F 8B. To the probe they are
 	// bytes like any other. (r7)
 	Lead string `json:"lead,omitempty"`
+	// TE: the request's TransferEncoding field is set ("chunked"), whatever its length declaration says: the answer is a
+	// matter of the declared length and of the stream. (r8)
+	TE bool `json:"te,omitempty"`
 }
 
 var leads = map[string][]byte{"bom": {0xEF, 0xBB, 0xBF}, "bom16": {0xFF, 0xFE}, "crlf": {'\r', '\n'}, "lf": {'\n'}, "blank": {' '}, "nul": {0}, "gzip": {0x1F, 0x8B}}
@@ -259,6 +262,9 @@ func Check(c Case) *kit.Violation {
 	case "posfield":
 		req.ContentLength = int64(sc.CLVal)
 	}
+	if sc.TE {
+		req.TransferEncoding = []string{"chunked"}
+	}
 
 	// the model
 	pos := 0          // bytes handed to the caller so far
@@ -466,6 +472,7 @@ func genScript(t *rapid.T) Script {
 	s.Body = rapid.SampledFrom([]string{"script", "script", "script", "script", "script", "script", "script", "nil", "nobody"}).Draw(t, "body")
 	s.CL = rapid.SampledFrom([]string{"absent", "absent", "absent", "absent0", "absent0", "zero", "pos", "posfield"}).Draw(t, "cl")
 	s.Method = rapid.SampledFrom([]string{"", "", "", "GET", "get", "HEAD", "DELETE", "OPTIONS", "PUT"}).Draw(t, "method")
+	s.TE = rapid.IntRange(0, 3).Draw(t, "transfer-encoding-field") == 0
 	s.Lead = rapid.SampledFrom([]string{"", "", "", "bom", "bom", "bom16", "crlf", "lf", "blank", "nul", "gzip"}).Draw(t, "lead")
 	if s.Body == "script" {
 		if rapid.IntRange(0, 3).Draw(t, "anylen") == 0 {
@@ -610,6 +617,9 @@ func Enumerate(yield func(Case) bool) {
 func Classify(c Case) (bool, []string) {
 	s := c.Script
 	labels := []string{"body=" + s.Body, "cl=" + s.CL}
+	if s.TE {
+		labels = append(labels, "TransferEncoding field set, cl="+s.CL)
+	}
 	if s.Body == "script" {
 		labels = append(labels, "term="+s.Term)
 		if s.Lead != "" && s.Len >= len(leads[s.Lead]) {
